@@ -7,7 +7,10 @@ open Naga Naga.Bind
 def nats (xs : List Sexp) : Option (List Nat) := xs.mapM Sexp.nat?
 
 def parseMod : Sexp → Option Mod
-  | .list [.atom "mod", .list (.atom "globals" :: gs), .list (.atom "helpers" :: hs), .list (.atom "entries" :: es)] => do
+  | .list [.atom "mod", .list (.atom "globals" :: gs), .list (.atom "helpers" :: hs), .list (.atom "entries" :: es), .list (.atom "io" :: ios)] => do
+    let ios ← ios.mapM (fun f => match f with
+      | .list [l, .atom i, .atom sm] => do some ((← l.nat?), (if i == "-" then "" else i), (if sm == "-" then "" else sm))
+      | _ => none)
     let gs ← gs.mapM (fun g => match g with
       | .list [.atom n, .atom k, a, b] => do some ({ name := n, kind := k, group := ← a.nat?, binding := ← b.nat? } : Global)
       | _ => none)
@@ -19,7 +22,7 @@ def parseMod : Sexp → Option Mod
       | .list [.atom n, .atom st, .list [.atom "wg", x, y, z], .list (.atom "uses" :: u), .list (.atom "calls" :: c)] => do
           some ({ name := n, stage := st, wg := (← x.nat?, ← y.nat?, ← z.nat?), uses := ← nats u, calls := ← nats c } : Entry)
       | _ => none)
-    some { globals := gs, helpers := hs, entries := es }
+    some { globals := gs, helpers := hs, entries := es, io := ios }
   | _ => none
 
 def parseMap : Sexp → Option BMap
@@ -43,7 +46,11 @@ def describeSpv (b : Spv.Bin) : List String × List String :=
       let sc := v.ws.getD 2 0
       match deco id 34, deco id 33, deco id 30, deco id 11 with
       | some s, some bd, _, _ => s!"sc{sc}:set{s},b{bd}"
-      | _, _, some l, _ => s!"sc{sc}:loc{l}"
+      | _, _, some l, _ =>
+        let has (d : Nat) := decos.any (fun i => i.ws.getD 0 0 == id && i.ws.getD 1 0 == d)
+        let fl := (if has 14 then ["flat"] else []) ++ (if has 13 then ["noperspective"] else []) ++
+                  (if has 16 then ["centroid"] else []) ++ (if has 17 then ["sample"] else [])
+        s!"sc{sc}:loc{l}" ++ (if fl.isEmpty then "" else ":" ++ ",".intercalate fl)
       | _, _, _, some bi => s!"sc{sc}:builtin{bi}"
       | _, _, _, _ => s!"sc{sc}"
   let eps := (b.insts.filter (·.op == 15)).map (fun e =>
